@@ -104,6 +104,10 @@ fn main() {
             umverif::c09::run(&mut rep);
             rep.finish()
         }
+        "C20" => {
+            umverif::c20::run(&mut rep);
+            rep.finish()
+        }
         "C15" => {
             umverif::c15::run(&mut rep);
             rep.finish()
